@@ -14,6 +14,10 @@ CONSTANTS
   Pres <- Q_Pres
   PreSpecSrcs <- Q_PreSpecSrcs
   AliasAttrs = FALSE
+  ChainSrcs <- Q_ChainSrcs
+  ChainPairs <- Q_ChainPairs
+  ChainInexact = FALSE
+  StaleRate = FALSE
   DeclFiles <- Q_DeclFiles
   HeaderRate = FALSE
   HistStride = 11
@@ -24,6 +28,7 @@ INVARIANT ImplRecIsFile
 INVARIANT ImplProduces
 INVARIANT ImplTimeAxis
 INVARIANT ImplFreqAxis
+INVARIANT ImplChainAxis
 INVARIANT ImplSourceTruthful
 INVARIANT ImplStartsAtSource
 INVARIANT ResampleDriftBounded
